@@ -12,7 +12,21 @@ Trim.content_text / Trim.content_gfx run on the canvas's own lines (which are al
 have the shape the theorems quantify over), and — specification side, on the
 implementation's own output — with the crop of what the untrimmed canvas shows
 (TrimSpec.row_vis / crop), row count, row width, default attributes at the end of every row;
-for graphics canvases: exactly the selected lines / blank cells."""
+for graphics canvases: exactly the selected lines / blank cells.
+
+Round 4.  (a) SEVERAL REQUESTS IN FLIGHT AT ONCE on one canvas object: k = 2..3 content()
+generators created together and advanced by every kind of schedule (lock-step, one ahead, one
+after the other, reversed, random, one abandoned half-way and finished last), and the requests
+REAL urwid compositions make (nested urwid.Overlay with the image partly covered, urwid.Columns
+showing the same widget twice, rendered through CompositeCanvas.content(), every
+UrwidImageCanvas.content() call and every next() recorded in urwid's own order): each request's
+rows are an ordinary observation judged against the crop of ITS sub-rectangle, and the whole
+schedule is replayed on the generator model (model/TrimIter.v) inside Coq.  (b) FAILING RENDERS:
+the image's file vanishes / turns into garbage, or its renderer raises, after the widgets were
+built (sizing still works), with an error placeholder of every sizing kind installed (box only,
+flow only, both, another image widget) or none, the widget used as a flow and as a box widget:
+rows() before / after against the canvas render() returns and the rows its content() yields
+(model/TrimPlaceholder.v, model/TrimPhTie.v)."""
 from __future__ import annotations
 
 import copy
@@ -22,9 +36,12 @@ import lexer
 import renderlib as R
 
 LEVEL = "proof"
-EXTRA_TARGETS = ["model/TrimTie.vo"]
+EXTRA_TARGETS = ["model/TrimTie.vo", "model/TrimPhTie.vo"]
 HEADER = ("From Coq Require Import List ZArith.\nImport ListNotations.\n"
           "From TI Require Import lib.Term model.Trim model.TrimSpec model.TrimTie.\nFrom Coq Require Import Uint63.\nOpen Scope Z_scope.\n")
+
+PH_HEADER = ("From Coq Require Import List ZArith.\nImport ListNotations.\n"
+             "From TI Require Import model.Trim model.TrimPlaceholder model.TrimPhTie.\nOpen Scope Z_scope.\n")
 
 H_CH = ["<", "|", ">"]
 V_CH = ["^", "-", "_"]
@@ -113,7 +130,7 @@ def corpus():
     return cs
 
 
-IMAGE_KEYS = ("style", "img", "term_bg", "on_kitty", "term", "via", "max_exh", "n_random", "rseed")
+IMAGE_KEYS = ("style", "img", "term_bg", "on_kitty", "term", "via", "max_exh", "n_random", "rseed", "fail", "placeholder", "n_groups")
 WIDGET_KEYS = ("ha", "va", "alpha", "style_spec", "upscale", "spec")
 
 
@@ -219,6 +236,103 @@ def gen_flow_history(rng):
     return h
 
 
+def gen_layout(rng, W, H):
+    """A real urwid composition around the widget: 1..3 nested Overlays (explicit left / top / width / height of the
+    covering widget, mostly strictly inside so that image is visible on both sides), optionally over a Columns that
+    shows the same widget twice (one canvas object, two columns)."""
+    twin = rng.random() < 0.25
+    gap = rng.choice([0, 1]) if twin else 0
+    total = 2 * W + gap if twin else W
+    ovs = []
+    for _ in range(rng.choice([1, 1, 2, 2, 3])):
+        if total >= 3 and rng.random() < 0.7:
+            l = rng.randint(1, total - 2)
+            ow = rng.randint(1, total - 1 - l)
+        else:
+            l = rng.randrange(total)
+            ow = rng.randint(1, total - l)
+        t = rng.randrange(H)
+        oh = rng.randint(1, H - t)
+        ovs.append([l, t, ow, oh])
+    lay = {"overlays": ovs}
+    if twin:
+        lay.update(twin=True, gap=gap)
+    return lay
+
+
+def with_inter_steps(rng, h, p=0.5):
+    """Simultaneous requests on the canvases of a history: after some of its request steps, and a composition at the end."""
+    steps = []
+    for st in h["steps"]:
+        steps.append(st)
+        if st[0] == "trim" and rng.random() < p:
+            steps.append(["inter", st[1], "auto"])
+    boxes = [st for st in h["steps"] if st[0] == "render" and len(st[2]) == 2]
+    if boxes and rng.random() < p:
+        st = rng.choice(boxes)
+        steps.append(["compose", st[1], list(st[2]), gen_layout(rng, *st[2])])
+    h["steps"] = steps
+    h["n_groups"] = 6
+    return h
+
+
+def gen_inter_history(rng, large=False):
+    """One canvas (text 75% / graphics), several requests in flight at once: direct groups under every schedule
+    pattern, then real urwid compositions; sometimes a later render of the widget in between."""
+    c = gen_case(rng, large)
+    if c["style"] == "block":
+        c["img"]["size"] = [rng.randint(4, 24), rng.randint(4, 30)] if large else [rng.randint(3, 10), rng.randint(4, 14)]
+        c["img"]["kind"] = rng.choice(["runs", "runs", "random", "alpha-flip"])
+    h = to_history(c)
+    if large:
+        W, H = rng.randint(9, 30), rng.randint(5, 15)
+    else:
+        W, H = rng.randint(2, MAX_EXH[0]), rng.randint(2, MAX_EXH[1])
+    steps = [["render", 0, [W, H]], ["inter", 0, "auto"], ["compose", 0, [W, H], gen_layout(rng, W, H)]]
+    if rng.random() < 0.5:
+        steps.append(["compose", 0, [W, H], gen_layout(rng, W, H)])
+    if rng.random() < 0.4:  # requests in flight on the EARLIER canvas after a later render of the widget
+        steps += [["render", 0, gen_size(rng, large)], ["inter", 1, "auto"], ["inter", 0, "auto"]]
+    h["steps"] = steps
+    h["cache"] = rng.random() < 0.3
+    h["n_groups"] = 12
+    return h
+
+
+PLACEHOLDERS = ["solidfill", "text", "filler", "pile", "divider", "linebox", "image"]
+
+
+def gen_fail_history(rng):
+    """Renders that FAIL (the file behind the image vanished / is garbage / the renderer raises) after the widgets
+    were built, switched on and off, an error placeholder of some sizing kind installed (or none); flow widgets
+    (upscaling and not) at several widths and box renders; cheap: the point is rows() against render()."""
+    c = gen_case(rng)
+    if c["style"] == "block":
+        c["img"]["size"] = [rng.randint(1, 12), rng.randint(1, 24)]
+    h = to_history(c)
+    w2 = dict(h["widgets"][0]); w2["upscale"] = not w2["upscale"]; w2["spec"] = fmt_spec(w2)
+    h["widgets"].append(w2)
+    h["cache"] = False
+    h["fail"] = rng.choice(["vanish", "vanish", "garbage", "raise", "raise"])
+    if rng.random() < 0.9:
+        h["placeholder"] = {"kind": rng.choice(PLACEHOLDERS), "text": rng.choice(["broken image", "?", "the image could not be rendered"])}
+    steps, n = [], 0
+    if rng.random() < 0.5:
+        steps.append(["render", rng.randrange(2), [rng.randint(1, 16)]]); n += 1
+    for _ in range(rng.randint(1, 2)):
+        if rng.random() < 0.4:
+            steps.append(["env", gen_env(rng)])
+        steps.append(["fail", True])
+        for _ in range(rng.randint(2, 4)):
+            steps.append(["render", rng.randrange(2), [rng.randint(1, 24)] if rng.random() < 0.75 else
+                          [rng.randint(1, 12), rng.randint(1, 8)]]); n += 1
+        steps.append(["fail", False])
+        steps.append(["render", rng.randrange(2), [rng.randint(1, 16)]])
+        steps.append(["trim", n, [[0, 0, None, None], [0, 0, 1, 1]]]); n += 1
+    h["steps"] = steps
+    return h
+
+
 def corpus_histories():
     cs = []
     base = {"style": "block", "img": {"mode": "RGBA", "size": [6, 8], "seed": 11, "kind": "runs"}, "alpha": "",
@@ -260,6 +374,36 @@ def corpus_histories():
     # graphics flow widget, the terminal's cell size changes after construction
     cs.append(to_history(g, [["render", 0, [7]], ["env", {"cell_size": [12, 16]}], ["render", 0, [7]], ["render", 0, [4]],
                              ["trim", 0, "all"], ["env", {"cell_size": [7, 21]}], ["render", 0, [9]], ["trim", 1, "all"]]))
+    # --- several requests in flight at once (round 4)
+    # the two halves of a canvas beside a covered block, in lock-step / one ahead / one after the other / first one
+    # abandoned after its first image row and finished last; three requests; then real urwid compositions
+    pair = [[0, 0, 3, 5], [5, 0, 3, 5]]
+    lock = [0, 1] * 6
+    h = to_history(base, [["render", 0, [8, 5]],
+                          ["inter", 0, [{"reqs": pair, "sched": lock}, {"reqs": pair, "sched": [0] + lock},
+                                        {"reqs": pair, "sched": []}, {"reqs": pair, "sched": [0, 0, 1, 1, 1, 1, 1, 1]},
+                                        {"reqs": [[1, 1, 4, 3], [4, 0, 4, 5], [0, 2, 8, 2]], "sched": [0, 1, 2] * 6},
+                                        {"reqs": [[0, 1, 2, 2], [0, 2, 2, 3]], "sched": lock}]],
+                          ["compose", 0, [8, 5], {"overlays": [[3, 1, 2, 2]]}],
+                          ["compose", 0, [8, 5], {"overlays": [[3, 1, 2, 3], [1, 2, 4, 2]]}],
+                          ["compose", 0, [8, 5], {"overlays": [[2, 0, 13, 3]], "twin": True, "gap": 1}],
+                          ["inter", 0, "auto"]])
+    h["img"] = {"mode": "RGB", "size": [6, 8], "seed": 12, "kind": "random"}
+    cs.append(h)
+    cs.append(to_history(g, [["render", 0, [7, 6]], ["inter", 0, [{"reqs": [[0, 0, 7, 3], [0, 2, 7, 4]], "sched": [0, 1] * 5},
+                                                                 {"reqs": [[0, 1, 3, 4], [4, 1, 3, 4]], "sched": [0, 1] * 5}]],
+                             ["compose", 0, [7, 6], {"overlays": [[2, 2, 3, 2]]}]]))
+    # --- renders that fail, every kind of placeholder (round 4): flow (both widgets), box, back to normal
+    f = dict(base); f["img"] = {"mode": "RGB", "size": [10, 20], "seed": 4, "kind": "runs"}
+    for k, kind in enumerate(PLACEHOLDERS + [None]):
+        h = to_history(f, [["render", 0, [10]], ["fail", True], ["render", 0, [10]], ["render", 1, [14]], ["render", 0, [3]],
+                           ["render", 0, [9, 4]], ["fail", False], ["render", 0, [10]], ["trim", 5, [[0, 0, None, None]]]])
+        w2 = dict(h["widgets"][0]); w2.update(upscale=True); w2["spec"] = fmt_spec(w2)
+        h["widgets"].append(w2)
+        h["fail"] = ["vanish", "raise", "garbage"][k % 3]
+        if kind:
+            h["placeholder"] = {"kind": kind}
+        cs.append(h)
     return cs
 
 
@@ -347,6 +491,54 @@ def flow_t(c, r):
     return "[" + ";".join(core.z(v).replace("%Z", "") for v in vals) + "]"
 
 
+def nat_t(xs):
+    return "[" + ";".join(map(str, xs)) + "]%nat"
+
+
+def inter_t(r):
+    gs = r.get("inter", [])
+    return "[" + ";\n".join(f"{{| i_obs := {nat_t(g['obs'])}; i_sched := {nat_t(g['sched'])}; i_ev := {idx_t(g['ev'])} |}}"
+                            for g in gs) + "]"
+
+
+def zp(p):
+    return f"({core.z(p[0])}, {core.z(p[1])})"
+
+
+def pcase_term(h, ph):
+    """One failing render (TrimPhTie.pcase)."""
+    w = h["widgets"][ph["widget"]]
+    flow = len(ph["req"]) == 1
+    size = "[" + ";".join(core.z(v) for v in ph["req"]) + "]"
+    pht = "None"
+    if ph.get("installed"):
+        fl = ph.get("ph_flow")
+        pht = f"(Some ({R.b(bool(ph.get('ph_box')))}, {'None' if fl is None else f'(Some {core.z(fl)})'}))"
+    out = "None"
+    if ph.get("raised") is None and "cols" in ph:
+        out = f"(Some ({core.z(ph['cols'])}, {core.z(ph['rows'])}, {core.z(ph['ncontent'])}, {R.b(bool(ph['wide']))}))"
+    return (f"{{| p_size := {size}; p_up := {R.b(bool(w['upscale']))}; p_fit := {zp(ph['fit'] if flow else [0, 0])}; "
+            f"p_ori := {zp(ph['ori'] if flow else [0, 0])}; p_ph := {pht}; "
+            f"p_rows_before := {core.z(ph['rows_before'] if flow else -1)}; p_rows_after := {core.z(ph['rows_after'] if flow else -1)}; "
+            f"p_out := {out} |}}")
+
+
+def ph_reason(h, ph):
+    kind = (h.get("placeholder") or {}).get("kind")
+    who = (f"error placeholder {kind!r} installed (accepts a box size: {ph.get('ph_box')}; its own flow rows at that width: "
+           f"{ph.get('ph_flow')})") if ph.get("installed") else "no error placeholder installed"
+    size = tuple(ph["req"])
+    how = h.get("fail")
+    if ph.get("raised") is not None:
+        return (f"render({size}) of a widget whose image cannot be rendered ({how}) raised {ph['raised']} although an {who}")
+    if len(size) == 1:
+        return (f"flow widget whose image cannot be rendered ({how}), {who}: rows({size}) announced {ph['rows_before']} "
+                f"(asked again after the render: {ph['rows_after']}) but render({size}) returned a {ph.get('canvas')} of "
+                f"{ph['cols']}x{ph['rows']} whose content() yields {ph['ncontent']} rows (every row {ph['cols']} wide: {ph['wide']})")
+    return (f"box widget whose image cannot be rendered ({how}), {who}: render({size}) returned a {ph.get('canvas')} of "
+            f"{ph['cols']}x{ph['rows']} whose content() yields {ph['ncontent']} rows (every row {ph['cols']} wide: {ph['wide']})")
+
+
 def case_term(c, r):
     W, H = r["size"]
     w, h = r["image_size"]
@@ -359,7 +551,8 @@ def case_term(c, r):
     return (f"(let aux := {aux_t} in {{| c_gfx := {R.b(not r['text'])}; c_d := {expected_disguise(c)}%nat; c_W := {W}; c_H := {H}; "
             f"c_w := {w}; c_h := {h}; c_ha := {al(c['ha'])}%nat; c_va := {al(c['va'])}%nat; "
             f"c_lines := dec_rows aux {lines_t}; c_tbl := dec_rows aux {tbl_t}; "
-            f"c_fd := {max(r['fd'], 0)}; c_full := {idx_t(r['full'])}; c_obs := {obs}; c_flow := {flow_t(c, r)} |}})")
+            f"c_fd := {max(r['fd'], 0)}; c_full := {idx_t(r['full'])}; c_obs := {obs}; c_flow := {flow_t(c, r)}; "
+            f"c_inter := {inter_t(r)} |}})")
 
 
 def describe(c, r=None):
@@ -405,6 +598,7 @@ def evaluate(hs, tag):
     """Per history: [code, reasons, impl result, per-canvas codes]; plus infrastructure errors."""
     impl = core.run_impl_parallel("impl_c17.py", hs, chunk=max(30, (len(hs) + core.NCPU - 1) // core.NCPU))
     terms, owner = [], []
+    pterms, powner = [], []
     out = [[0, [], r, []] for r in impl]
     for i, (h, r) in enumerate(zip(hs, impl)):
         if "error" in r:
@@ -412,6 +606,10 @@ def evaluate(hs, tag):
             out[i][1].append("raised " + r["error"])
             continue
         out[i][3] = [0] * len(r["canvases"])
+        r["ph_codes"] = [0] * len(r.get("ph", []))
+        for j, ph in enumerate(r.get("ph", [])):
+            pterms.append(pcase_term(h, ph))
+            powner.append((i, j))
         for k, rec in enumerate(r["canvases"]):
             c = view(h, rec)
             try:
@@ -428,13 +626,26 @@ def evaluate(hs, tag):
                 out[i][3][k] |= 2
                 out[i][1] += [f"canvas {k} {tuple(rec['size'])}: {x}" for x in why]
     errors = []
-    if terms:
-        bad, errs = core.coq_shards(tag, HEADER, terms, "tcase", "bad cases", shard=4)
-        errors += errs
-        for idx, code in bad:
-            i, k = owner[idx]
-            out[i][0] |= code
-            out[i][3][k] |= code
+    from concurrent.futures import ThreadPoolExecutor
+    with ThreadPoolExecutor(max_workers=2) as ex:
+        fut_p = ex.submit(core.coq_shards, tag + "_ph", PH_HEADER, pterms, "pcase", "pbad cases", 2000) if pterms else None
+        fut_t = ex.submit(core.coq_shards, tag, HEADER, terms, "tcase", "bad cases", 4) if terms else None
+        if fut_t:
+            bad, errs = fut_t.result()
+            errors += errs
+            for idx, code in bad:
+                i, k = owner[idx]
+                out[i][0] |= code
+                out[i][3][k] |= code
+        if fut_p:
+            bad, errs = fut_p.result()
+            errors += errs
+            for idx, code in bad:
+                i, j = powner[idx]
+                out[i][0] |= code
+                out[i][2]["ph_codes"][j] |= code
+                if code & 2:
+                    out[i][1].append(f"render step {out[i][2]['ph'][j]['step']}: " + ph_reason(hs[i], out[i][2]["ph"][j]))
     return out, errors
 
 
@@ -466,7 +677,7 @@ def first_failure(h, entry):
                 continue
             obs = rec["obs"]
             j = min(specf, key=lambda j: ((obs[j][2] or 99) * (obs[j][3] or 99), obs[j][0] + obs[j][1], rec["obs_step"][j]))
-            return k, obs[j][:4], rec["obs_step"][j]
+            return k, obs[j][:4], rec["obs_step"][j], j
     return None
 
 
@@ -482,10 +693,10 @@ def drop_step(h, i):
     for j, x in enumerate(h["steps"]):
         if j == i:
             continue
-        if x[0] == "trim":
+        if x[0] in ("trim", "inter"):
             if x[1] == ordinal:
                 continue
-            x = ["trim", x[1] - (x[1] > ordinal), x[2]]
+            x = [x[0], x[1] - (x[1] > ordinal), x[2]]
         steps.append(copy.deepcopy(x))
     d["steps"] = steps
     return d
@@ -509,22 +720,71 @@ def fewer_steps(h):
     return best
 
 
+REQUEST_STEPS = ("trim", "inter", "compose")
+
+
+def smaller_group(h):
+    """A failing history ending in ONE group of simultaneous requests / a composition: fewer requests in the group,
+    fewer overlays, while it still fails."""
+    best = h
+    for _ in range(4):
+        if core.over_budget():
+            break
+        last = best["steps"][-1]
+        cands = []
+        if last[0] == "inter" and isinstance(last[2], list) and len(last[2]) == 1 and len(last[2][0]["reqs"]) > 2:
+            g = last[2][0]
+            for x in range(len(g["reqs"])):
+                d = copy.deepcopy(best)
+                d["steps"][-1][2] = [{"reqs": [r for i, r in enumerate(g["reqs"]) if i != x],
+                                      "sched": [i - (i > x) for i in g["sched"] if i != x]}]
+                cands.append(d)
+        elif last[0] == "compose":
+            lay = last[3]
+            for x in range(len(lay.get("overlays", []))):
+                if len(lay["overlays"]) > 1:
+                    d = copy.deepcopy(best)
+                    del d["steps"][-1][3]["overlays"][x]
+                    cands.append(d)
+            if lay.get("twin"):
+                d = copy.deepcopy(best)
+                W = d["steps"][-1][2][0]
+                d["steps"][-1][3] = {"overlays": [[l, t, min(ow, W - l), oh] for l, t, ow, oh in lay.get("overlays", []) if l < W]}
+                if d["steps"][-1][3]["overlays"]:
+                    cands.append(d)
+        if not cands:
+            break
+        res, _e = evaluate(cands, "c17_shrink")
+        nxt = next((d for d, e in zip(cands, res) if e[0] & 2 and not e[1]), None)
+        if nxt is None:
+            break
+        best = nxt
+    return best
+
+
 def shrink(h, entry):
     """Smallest failing request; then fewer steps; then greedily smaller images / sizes that still fail."""
     trim = None
     ff = first_failure(h, entry) if not entry[1] else None
     best = h
     if ff:
-        k, trim, si = ff
+        k, trim, si, j = ff
         d = copy.deepcopy(h)
-        ordinal = entry[2]["alias"].index(k)
-        d["steps"] = [copy.deepcopy(st) for st in h["steps"][:si] if st[0] != "trim"] + [["trim", ordinal, [trim]]]
+        kind = h["steps"][si][0]
+        before = [copy.deepcopy(st) for st in h["steps"][:si] if st[0] not in REQUEST_STEPS]
+        if kind == "trim":
+            d["steps"] = before + [["trim", entry[2]["alias"].index(k), [trim]]]
+        elif kind == "inter":  # the group of simultaneous requests the failing one belongs to, with its effective schedule
+            g = next(g for g in entry[2]["canvases"][k]["inter"] if g["step"] == si and j in g["obs"])
+            d["steps"] = before + [["inter", entry[2]["alias"].index(k), [{"reqs": g["reqs"], "sched": g["sched"]}]]]
+        else:  # a composition: kept as it is
+            d["steps"] = before + [copy.deepcopy(h["steps"][si])]
         res, _e = evaluate([d], "c17_shrink")
         if res[0][0] & 2:
             best = d
     else:  # a failure that needs no request (rows() against render(), an exception ...): try without any request first
         d = copy.deepcopy(h)
-        d["steps"] = [copy.deepcopy(st) for st in h["steps"] if st[0] != "trim"]
+        d["steps"] = [copy.deepcopy(st) for st in h["steps"] if st[0] not in REQUEST_STEPS]
         if any(st[0] == "render" for st in d["steps"]):
             res, _e = evaluate([d], "c17_shrink")
             if res[0][0] & 2:
@@ -532,6 +792,7 @@ def shrink(h, entry):
     best = fewer_steps(best)
     if not ff:
         return best, None
+    best = smaller_group(best)
     # smaller image / sizes, asking for every request again
     for _ in range(5):
         if core.over_budget():
@@ -604,12 +865,20 @@ def run(ctx):
         hs = [c if "steps" in c else to_history(c)]
     else:
         n_small, n_large, n_hist, n_hist_large, n_flow = (14, 4, 14, 4, 12) if ctx.quick else (400, 100, 500, 100, 600)
-        hs = ([to_history(c) for c in corpus()] + corpus_histories()
-              + [to_history(gen_case(rng)) for _ in range(n_small)]
-              + [to_history(gen_case(rng, large=True)) for _ in range(n_large)]
-              + [gen_history(rng) for _ in range(n_hist)]
-              + [gen_history(rng, large=True) for _ in range(n_hist_large)]
-              + [gen_flow_history(rng) for _ in range(n_flow)])
+        n_inter, n_inter_large, n_fail = (12, 3, 12) if ctx.quick else (400, 100, 500)
+        plain = [to_history(gen_case(rng)) for _ in range(n_small)]
+        plain_large = [to_history(gen_case(rng, large=True)) for _ in range(n_large)]
+        hists = [gen_history(rng) for _ in range(n_hist)]
+        hists_large = [gen_history(rng, large=True) for _ in range(n_hist_large)]
+        flows = [gen_flow_history(rng) for _ in range(n_flow)]
+        # (round 4) drawn after the generators of earlier rounds, so that their cases stay what they were
+        inters = ([gen_inter_history(rng) for _ in range(n_inter)]
+                  + [gen_inter_history(rng, large=True) for _ in range(n_inter_large)])
+        for h in hists[::2] + hists_large[::2]:  # simultaneous requests inside render/request histories (steps are only added)
+            with_inter_steps(rng, h)
+        fails = [gen_fail_history(rng) for _ in range(n_fail)]
+        hs = ([to_history(c) for c in corpus()] + corpus_histories() + plain + plain_large + hists + hists_large + flows
+              + inters + fails)
     res, errors = evaluate(hs, "c17")
     failures, mismatches = [], []
     hist = {"style": {}, "sizing": {}, "align": {}, "alpha": {}, "via": {}, "upscale": {}, "canvas_cells": {},
@@ -618,7 +887,13 @@ def run(ctx):
             "histories": {"total": len(hs), "renders": {}, "widgets_sharing_image": 0, "canvas_cache_on": 0, "cache_hits": 0},
             "requests_after_a_later_render": 0, "requests_after_image_size_changed": 0,
             "environment": {"histories_with_changes": 0, "changes": {}, "flow_renders": 0, "flow_renders_after_a_change": 0,
-                            "flow_renders_upscale": 0, "flow_renders_original_size_used": 0, "cell_ratio_at_flow_render": {}}}
+                            "flow_renders_upscale": 0, "flow_renders_original_size_used": 0, "cell_ratio_at_flow_render": {}},
+            "simultaneous_requests": {"groups": 0, "requests": 0, "next_calls": 0, "requests_per_group": {},
+                                      "made_by": {"driver schedule": 0, "urwid composition": 0},
+                                      "groups_truly_interleaved": 0, "groups_with_different_horizontal_trims_in_flight": 0,
+                                      "compositions": {"total": 0, "overlays": {}, "same_widget_twice_in_columns": 0}},
+            "failing_renders": {"total": 0, "flow": 0, "box": 0, "how": {}, "placeholder": {}, "outcome": {"canvas": 0, "raised": 0},
+                                "flow_with_placeholder_whose_own_rows_differ": 0, "after_environment_change": 0}}
     distinct = set()
     n_shrunk = 0
     ci = 0
@@ -636,6 +911,24 @@ def run(ctx):
                 hist["environment"]["changes"][key] = hist["environment"]["changes"].get(key, 0) + 1
         hist["style"][h["style"]] = hist["style"].get(h["style"], 0) + 1
         hist["via"][h.get("via", "content")] = hist["via"].get(h.get("via", "content"), 0) + 1
+        F, S = hist["failing_renders"], hist["simultaneous_requests"]
+        for st in h["steps"]:
+            if st[0] == "compose":
+                S["compositions"]["total"] += 1
+                nk = str(len(st[3].get("overlays", [])))
+                S["compositions"]["overlays"][nk] = S["compositions"]["overlays"].get(nk, 0) + 1
+                S["compositions"]["same_widget_twice_in_columns"] += bool(st[3].get("twin"))
+        for j, ph in enumerate(r.get("ph", [])):
+            F["total"] += 1
+            F["flow" if len(ph["req"]) == 1 else "box"] += 1
+            F["how"][h.get("fail")] = F["how"].get(h.get("fail"), 0) + 1
+            pk = (h.get("placeholder") or {}).get("kind", "none")
+            F["placeholder"][pk] = F["placeholder"].get(pk, 0) + 1
+            F["outcome"]["raised" if ph.get("raised") is not None else "canvas"] += 1
+            F["after_environment_change"] += any(si < ph["step"] for si, _e in envs)
+            if len(ph["req"]) == 1 and ph.get("ph_flow") is not None and ph["ph_flow"] != ph["rows_before"]:
+                F["flow_with_placeholder_whose_own_rows_differ"] += 1
+                distinct.add(("ph", hi, j))
         for rec in r.get("canvases", []):
             ci += 1
             c = view(h, rec)
@@ -666,6 +959,31 @@ def run(ctx):
             hist["padded"]["v"] += H > hh
             hist["padded"]["none"] += (W == w and H == hh)
             classify(c, rec, hist, distinct, ci)
+            for gi, g in enumerate(rec.get("inter", [])):
+                S["groups"] += 1
+                S["requests"] += len(g["obs"])
+                S["next_calls"] += len(g["sched"])
+                nk = str(min(len(g["obs"]), 6)) + ("+" if len(g["obs"]) >= 6 else "")
+                S["requests_per_group"][nk] = S["requests_per_group"].get(nk, 0) + 1
+                S["made_by"]["urwid composition" if h["steps"][g["step"]][0] == "compose" else "driver schedule"] += 1
+                # truly interleaved: some request is handed a row while another one, started earlier, is unfinished
+                need = [len(rec["obs"][o][5]) for o in g["obs"]]
+                took = [0] * len(need)
+                inter2 = hdiff = False
+                for i2, e in zip(g["sched"], g["ev"]):
+                    if e < 0:
+                        continue
+                    others = [x for x in range(len(need)) if x != i2 and 0 < took[x] < need[x]]
+                    if others:
+                        inter2 = True
+                        if any((rec["obs"][g["obs"][x]][0], rec["obs"][g["obs"][x]][2]) !=
+                               (rec["obs"][g["obs"][i2]][0], rec["obs"][g["obs"][i2]][2]) for x in others):
+                            hdiff = True
+                    took[i2] += 1
+                S["groups_truly_interleaved"] += inter2
+                S["groups_with_different_horizontal_trims_in_flight"] += hdiff
+                if hdiff and rec["text"]:
+                    distinct.add((ci, "inter", gi))
             # how many requests were made after a later render / after the shared image's size had changed
             later = [(si, st) for si, st in enumerate(h["steps"]) if st[0] == "render" and si > rec["built_at"]]
             for si_obs in rec["obs_step"]:
@@ -691,8 +1009,22 @@ def run(ctx):
             last = sh["steps"][-1]
             if last[0] == "trim" and isinstance(last[2], list) and len(last[2]) == 1:
                 trim = last[2][0]
+            ff2 = None
+            if not why2 and last[0] in ("inter", "compose") and "canvases" in e2[2]:
+                ff2 = first_failure(sh, e2)
             if why2:
                 detail = "; ".join(why2)
+            elif ff2:
+                k2, rq2, si2, j2 = ff2
+                rec2 = e2[2]["canvases"][k2]
+                g2 = next((g for g in rec2["inter"] if j2 in g["obs"]), None)
+                made = ("the content() calls urwid itself makes while rendering the composition "
+                        f"{sh['steps'][si2][3]} of the widget at {tuple(sh['steps'][si2][2])}" if sh["steps"][si2][0] == "compose"
+                        else "content() generators created together by the driver")
+                detail = (f"SEVERAL REQUESTS IN FLIGHT AT ONCE on one canvas {tuple(rec2['size'])} holding an image of "
+                          f"{tuple(rec2['image_size'])} ({made}): requests {g2['reqs'] if g2 else '?'} advanced by next() in the order "
+                          f"{g2['sched'] if g2 else '?'}; request content{tuple(rq2)} was handed rows that are not the crop of ITS "
+                          f"sub-rectangle of the untrimmed canvas (rows / width / colours / end-of-row attributes)")
             elif trim:
                 detail = (f"content{tuple(trim)} on the canvas of the last request does not show the corresponding region of that "
                           f"canvas's untrimmed rows as they were when it was built (rows / width / colours / end-of-row attributes)")
@@ -710,7 +1042,9 @@ def run(ctx):
                                "explain": explain(view(h, rec), rec)[:600] if len(mismatches) < 3 and rec else ""})
     return {
         "corr_name": "Trim.content_text / content_gfx / rows (model, run on the data captured when each canvas was built) == real "
-                     "UrwidImage.render(size).content(...) over render/request histories, UrwidImage.rows",
+                     "UrwidImage.render(size).content(...) over render/request histories, UrwidImage.rows; TrimIter.run == several live "
+                     "content() generators of one canvas under a schedule (driver-made and urwid-made); TrimPlaceholder.render_outcome == "
+                     "UrwidImage.render when rendering fails",
         "evaluations": hist["trims"],
         "distinct_nontrivial": len(distinct),
         "rule": "HISTORIES: single render-then-request cases plus (quick ~40%, thorough ~50%) histories of 2-3 renders of one widget — or "
@@ -728,7 +1062,28 @@ def run(ctx):
                 "EVERY (trim_left, trim_top, cols, rows) of canvases <= 8x6 plus the protocol's None defaults with a zero trim; "
                 "60 random sub-rectangles of larger canvases (up to 30x15).  evaluations = content() calls compared.  Non-trivial: "
                 "text canvas, a horizontal cut strictly inside the image on a visible image line; graphics: vertical trim of a "
-                "multi-line image; distinct by (canvas, sub-rectangle).",
+                "multi-line image; distinct by (canvas, sub-rectangle).  "
+                "ROUND 4 — SIMULTANEOUS REQUESTS: on canvases of dedicated histories (text 70% / graphics, box sizes 2..8 x 2..6 and "
+                "up to 30x15, sometimes with a later render of the widget in between) and of half of the render/request histories, "
+                "groups of k = 2..3 content() generators of ONE canvas object created together (the pieces left / right of a covered "
+                "block over the same rows, arbitrary mostly tall rectangles, the same columns at different rows) and advanced by "
+                "next() in lock-step, one ahead, one after the other, reversed, at random, or with the first one abandoned part of "
+                "the way and finished last, each then run to its end (the StopIteration included); and REAL urwid compositions — "
+                "1..3 nested urwid.Overlay (SolidFill / Filler(Text) tops at explicit positions, mostly strictly inside) over the "
+                "widget or over a urwid.Columns showing the same widget twice (one canvas object), rendered and read through "
+                "CompositeCanvas.content() with every UrwidImageCanvas.content() call urwid makes and every next() recorded in "
+                "urwid's order (2..13 requests per canvas).  Each request's rows are an ordinary observation (model + crop of ITS "
+                "sub-rectangle); per group Coq replays the schedule on the generator model (TrimIter.run) and checks that each "
+                "request's next() results are its observation followed by StopIterations only.  Non-trivial: a text canvas with two "
+                "requests of different horizontal trims unfinished at the same time.  FAILING RENDERS: the image is backed by a file "
+                "that vanishes / is overwritten with garbage, or by a renderer that raises, switched on AFTER the widgets were built "
+                "(and off again), error placeholder SolidFill (box only) / Text, Pile, Divider (flow only) / Filler(Text), "
+                "LineBox(Filler) (both) / another UrwidImage / none; flow renders (upscaling and not, widths 1..24, under environment "
+                "changes) and box renders: rows() before and (uncached) after the render, the canvas returned (size, rows content() "
+                "yields, width of plain-text rows) or the exception, what the placeholder itself does with that box size and with "
+                "the flow size (probed) — judged in Coq (TrimPhTie.pcheck) against TrimPlaceholder.render_outcome and against the "
+                "rows-announced = rows-rendered clause.  Non-trivial: a failing flow render whose placeholder's own flow height "
+                "differs from the announced rows.",
         "samples": [describe_history(h, e[2]) for h, e in list(zip(hs, res))[:1] + list(zip(hs, res))[21:24] + list(zip(hs, res))[-2:]],
         "histogram": hist,
         "mismatches": mismatches,
@@ -742,6 +1097,12 @@ def run(ctx):
             "terminal conventions of lib/Term.v (SGR direct colour, NUL ignored)",
             "a canvas is a snapshot: content() is a function of what was stored at construction (lines, canvas size, image size) and "
             "of the widget's immutable alignment; only the disguise suffix of graphics rows follows live (widget / class) state",
+            "what a canvas stored at construction is never modified afterwards, and a content() generator keeps its request's layout in "
+            "its own frame (model/TrimIter.v; that the real code does is what the simultaneous-request cases test)",
+            "the error placeholder is a widget that accepts a box size and then renders a canvas of exactly that size (urwid's box-widget "
+            "contract; probed at every failing render); with a placeholder that refuses a box size the render raises (no rows rendered)",
+            "sizing (rows(), set_size) does not need the image data: it keeps working while rendering fails",
         ],
-        "trusted": ["harness/lexer.py", "harness/impl/impl_c17.py (row bytes joined, disguise pairs counted)"],
+        "trusted": ["harness/lexer.py", "harness/impl/impl_c17.py (row bytes joined, disguise pairs counted; the spy that wraps "
+                    "UrwidImageCanvas.content while a composition is rendered; the file / renderer failure switches)"],
     }
